@@ -401,6 +401,44 @@ pub fn abandoned_ask_join(g: &mut G) -> Scenario {
     Scenario { actors: vec![a], clients: vec![c], probes: vec![], peer_slots: false, erase: None, expect: None }
 }
 
+/// C01 / C02 / C08: an actor with a periodic on_run (an interval: a round completes at once when its tick is overdue)
+/// under a backlog that keeps the mailbox non-empty for dozens of messages, handlers slower than the period. Every
+/// accepted message is handled, in order, before on_stop; on_run never runs while a message waits.
+pub fn interval_under_backlog(g: &mut G) -> Scenario {
+    let cap = g.pick(&[None, Some(32usize), Some(64), Some(130)]);
+    let mut a = ActorSpec { cap, ..Default::default() };
+    let period = g.pick(&[1u64, 1, 2]);
+    let rounds = g.range(40, 90);
+    for _ in 0..rounds {
+        a.on_run.push(RunScript { steps: vec![Op::Tick(period)], out: RunOut::True });
+    }
+    a.on_run.push(RunScript { steps: vec![], out: RunOut::False });
+    let n = g.range(34, 110);
+    let senders = g.range(1, 3);
+    let mut clients: Vec<Vec<Op>> = (0..senders).map(|_| Vec::new()).collect();
+    for i in 0..n {
+        let steps = match g.below(4) {
+            0 => vec![],
+            1 => vec![Op::Yield(1)],
+            _ => vec![Op::Sleep(g.pick(&[1u64, 2, 3]))],
+        };
+        let m = Msg::with(g.mid(), steps);
+        let c = (i % senders) as usize;
+        clients[c].push(if g.chance(150) { Op::Ask { h: 0, m } } else { Op::Tell { h: 0, m } });
+    }
+    match g.below(3) {
+        0 => clients[0].push(Op::Stop { h: 0 }),
+        1 => {
+            for c in clients.iter_mut() {
+                c.push(Op::Sleep(400));
+            }
+            clients[0].push(Op::Drop { h: 0 });
+        }
+        _ => {}
+    }
+    Scenario { actors: vec![a], clients, probes: vec![], peer_slots: false, erase: None, expect: None }
+}
+
 /// C10: the natural completion time of the operation placed before / at / after / never relative to
 /// the deadline, with the mailbox free, full or closed and the actor possibly dying first.
 pub fn deadline_alignment(g: &mut G) -> Scenario {
